@@ -79,6 +79,11 @@ pub static EXCLUDED_KNOWN: AtomicU64 = AtomicU64::new(0);
 pub static LOGQ_OVER_LIMIT: AtomicU64 = AtomicU64::new(0);
 /// executions in which 16 or more applied log files were seen waiting (C15, sync_data = false)
 pub static KEPT_LOGS_AT_LIMIT: AtomicU64 = AtomicU64::new(0);
+/// largest number of observer steps any execution needed until the pipeline had drained (C15)
+pub static MAX_OBSERVER_SPINS: AtomicU64 = AtomicU64::new(0);
+/// true while executions run under the uniformly random scheduler (every runnable task gets its
+/// share of steps, so a bound on the observer's steps is also a bound on everybody else's)
+pub static FAIR_SCHEDULER: std::sync::atomic::AtomicBool = std::sync::atomic::AtomicBool::new(false);
 pub static DIR_COUNTER: AtomicU64 = AtomicU64::new(0);
 
 pub fn violation(sig: &str, detail: String) -> ! {
@@ -144,6 +149,7 @@ where
 	let n0 = NONTRIVIAL.load(Ordering::SeqCst);
 	let f = Arc::new(f);
 	let f2 = f.clone();
+	FAIR_SCHEDULER.store(matches!(sched, Sched::Random(..)), Ordering::SeqCst);
 	let r = std::panic::catch_unwind(std::panic::AssertUnwindSafe(move || match sched {
 		Sched::Random(seed, iters) => Runner::new(RandomScheduler::new_from_seed(seed, iters), cfg).run(move || f2()),
 		Sched::Pct(seed, depth, iters) => Runner::new(PctScheduler::new_from_seed(seed, depth, iters), cfg).run(move || f2()),
